@@ -355,6 +355,9 @@ def run(spec):
                             % (d_renames, renames), **w)
             for r, ntext in new_code.items():
                 to = c05.map_path(r, renames)
+                if to not in applied:
+                    rec.violate('c07:diff_target_path_differs_from_renames', 'get_renames() moves %s to %s '
+                                'but the diff names %s as its target' % (r, to, sorted(applied)), **w)
                 got = applied.get(to, applied.get(r))
                 if got != ntext:
                     rec.violate(NOFINAL if (got or '').rstrip('\r\n') == ntext.rstrip('\r\n')
